@@ -1122,6 +1122,10 @@ func genGoMiniAll() []*leanFile {
 		[]string{cl + "segment.go"},
 		map[string][]string{cl + "segment.go": {"segment.Replace", "segment.WriteMessageSet", "segment.write", "segment.newSuffixed"}},
 		clConsts)})
+	out = append(out, &leanFile{name: "GoTruncate", raw: genGoMini("GoTruncate",
+		[]string{cl + "commitlog.go"},
+		map[string][]string{cl + "commitlog.go": {"commitLog.Truncate"}},
+		clConsts)})
 	out = append(out, &leanFile{name: "GoHWPos", raw: genGoMini("GoHWPos",
 		[]string{cl + "reader.go"},
 		map[string][]string{cl + "reader.go": {"getHWPos"}},
